@@ -1158,6 +1158,8 @@ var corpus = []string{
 	"j J6 0 " + sJ6 + " | { \"7368 { \"74797065 \"78 } }",
 	"j J7 0 " + sJ7 + " | { \"70 \"30783031 }",
 	"m 4 8 ffffffff0100000002",
+	"m 1 1 0200000005aa05bb", // the same key twice: an error since dde4606
+	"m 1 1 0200000005aa06bb",
 	"d 02000100 q u8 1 0 0 3 ( n 1 )",
 	"d 0201000000aa0300000001 r u8 d1 1 0 0 0 - [ ( 1 c d1 1 l n 1 ) ]",
 	"d 0500000003000000aa p [ ( 3 c d4 3 y ) ]",
